@@ -117,11 +117,25 @@ impl Array {
         let (a, a_transpose) = a;
         let (b, b_transpose) = b;
 
-        let input_dimensions = if a.dimensions.len() >= b.dimensions.len() {
-            &a.dimensions
-        } else {
-            &b.dimensions
-        };
+        // the leading dimensions are broadcast between both operands
+        let input_dimensions: Vec<usize> = element_wise_dimensions(
+            &a.dimensions[..a.dimensions.len().saturating_sub(2)],
+            &b.dimensions[..b.dimensions.len().saturating_sub(2)],
+        )
+        .into_iter()
+        .chain(
+            if a.dimensions.len() >= b.dimensions.len() {
+                &a.dimensions
+            } else {
+                &b.dimensions
+            }
+            .iter()
+            .rev()
+            .take(2)
+            .rev()
+            .copied(),
+        )
+        .collect();
 
         // TODO OpenCL
         let output_rows = if a.dimensions.len() < 2 && (!a_transpose || b.dimensions.len() < 2) {
@@ -253,7 +267,7 @@ impl Array {
             vec![a, b, c],
             &op,
             backward_op,
-            input_dimensions,
+            &input_dimensions,
             &output_dimensions,
             2,
             0,
